@@ -62,6 +62,11 @@ def draw_run(seed, i, cfgs, tier):
                 run_seed=rs, nfun=cfg['nfun'], npseed=rng.randrange(1, 10 ** 6))
     # npseed: the state of numpy's global generator when the ranks start (under real MPI it comes from OS entropy and differs
     # per rank and per run); generation seeds explicitly where it shuffles, so no output may depend on it
+    if rng.random() < 0.2:
+        # documented arguments of duplicate_checker.main that must not change any library file: memory tracking (extra code under
+        # rank-0 guards at six places of the generation) and the limits of the time-limited steps (the clock is virtual)
+        args['gen_kw'] = rng.choice([dict(track_memory=True), dict(track_memory=True), dict(search_tmax=rng.choice([1, 7, 600]), expand_tmax=rng.choice([2, 30])),
+                                     dict(track_memory=True, search_tmax=5)])
     if rng.random() < (0.15 if tier == 'quick' else 0.3):
         # F6b: what mpirun does by default - every rank's interpreter has its own string-hash secret.
         # Offsets relative to the pool's hash seed; resolved to absolute seeds when the job is issued.
@@ -258,6 +263,7 @@ def main(tier, seed, budget):
                 stats['by_policy'][a['policy']['kind']] = stats['by_policy'].get(a['policy']['kind'], 0) + 1
                 stats['eager'][str(a['eager'])] = stats['eager'].get(str(a['eager']), 0) + 1
                 stats['root_copy'] += int(a['root_copy'])
+                stats['gen_kw'] = stats.get('gen_kw', 0) + int(bool(a.get('gen_kw')))
                 stats['mixed_hs'] += int(bool(a.get('hs_offsets')))
                 stats['twins'] += int(bool(a.get('twin')))
                 stats['events'] += r['steps']
@@ -314,7 +320,7 @@ def main(tier, seed, budget):
              'order in which ranks touch every object (collective instance, shared path) touched by >= 2 ranks.' % 5,
         samples=samples,
         configurations=len(cfgs), configurations_skipped_over_cap=len(skipped), configurations_with_unmerge_path=sum(1 for c in cfgs if c.get('unmerged')), reference_failed=stats['ref_failed'],
-        worlds_by_P=stats['by_P'], worlds_by_policy=stats['by_policy'], eager_bias=stats['eager'], bcast_root_copy_runs=stats['root_copy'], worlds_with_per_rank_hash_seeds=stats['mixed_hs'], twin_worlds_for_schedule_independence=stats['twins'], sequential_runs_under_another_hash_seed_compared=stats['hs2_refs'],
+        worlds_by_P=stats['by_P'], worlds_by_policy=stats['by_policy'], eager_bias=stats['eager'], bcast_root_copy_runs=stats['root_copy'], worlds_with_non_default_generation_arguments=stats.get('gen_kw', 0), worlds_with_per_rank_hash_seeds=stats['mixed_hs'], twin_worlds_for_schedule_independence=stats['twins'], sequential_runs_under_another_hash_seed_compared=stats['hs2_refs'],
         runs_with_more_ranks_than_functions=stats['empty_slice_runs'],
         result_check_worlds=dict(worlds=stats.get('recheck_worlds', 0), skipped=stats.get('recheck_skipped', 0), rows_checked=stats.get('recheck_rows', 0),
                                  functions_split_off=stats.get('recheck_unmerged', 0),
